@@ -1,0 +1,16 @@
+//go:build verif
+
+package helpers
+
+// Verification hooks (build tag "verif" only).
+
+// VerifKafkaVersionOK reports whether parseKafkaVersion accepts the string (it panics otherwise).
+func VerifKafkaVersionOK(v string) (ok bool) {
+	defer func() {
+		if r := recover(); r != nil {
+			ok = false
+		}
+	}()
+	parseKafkaVersion(v)
+	return true
+}
